@@ -190,12 +190,18 @@ def main():
     else:
         cases = load_corpus(pid) + P.gen_cases(rng, tier)
     # unique ids
-    seen = set()
+    seen = {}
     uniq = []
     for c in cases:
         if c[0] in seen:
-            continue
-        seen.add(c[0])
+            if seen[c[0]] == c[1:]:
+                continue
+            # two different cases under one id (a generator slip): keep both, the later one under a suffixed id
+            k = 2
+            while "%s~d%d" % (c[0], k) in seen:
+                k += 1
+            c = ["%s~d%d" % (c[0], k)] + list(c[1:])
+        seen[c[0]] = c[1:]
         uniq.append(c)
     cases = uniq
     impl, model, raw = run_cases(P, pid, cases, "main", model_ok=model_ok)
